@@ -404,6 +404,7 @@ func GenModel(r *core.PRNG, cfg StreamCfg) *refts.Model {
 			}
 			if cfg.Bias && r.Chance(1, 2) {
 				u.Biased = true
+				u.BiasXY = r.Chance(1, 3)
 				if u.Len < 400 {
 					u.Len = r.Range(400, 1200)
 				}
